@@ -1146,6 +1146,9 @@ for _cid in ['build_map.keys', 'dict.items', 'toDict', 'toDict.value', 'dict.ind
              'plus.dicts', 'len.dict', 'dict.delete', 'deleteAll', 'groupBy', 'groupBy.value', 'groupBy.aggregate']:
     CASES[_cid]['small'] = True
 
+for _cid in ('insert.list', 'add', 'remove', 'set.iterator', 'enumerate.start', 'replace.one', 'splitAt', 'slice', 'cycle'):
+    CASES[_cid]['cost'] = max(CASES[_cid]['cost'], 2)        # path-heavy: thorough keeps len <= 3 for these
+
 EXTRA_KEYS = ['unpack/unpack', 'with/with_']   # registered by system.register, anchored by the property
 
 BY_KEY = {}
